@@ -9,9 +9,11 @@ package vh
 import (
 	"bytes"
 	"io"
+	"math"
 	"net/http"
 	"path/filepath"
 	"sync"
+	"sync/atomic"
 	"testing"
 	"time"
 
@@ -31,7 +33,11 @@ func (p *rtPacer) Pace(elapsed time.Duration, hits uint64) (time.Duration, bool)
 	k := p.calls
 	p.mu.Unlock()
 	wait, stop := p.inner(k, elapsed, hits)
-	p.tr.Emit("Pace", KV{"t": elapsed.Microseconds(), "elapsed": elapsed.Microseconds(), "hits": hits, "wait": wait.Microseconds(), "stop": stop})
+	logged := wait.Microseconds()
+	if logged > 2e9 {
+		logged = 2e9 // TLC's integers: a wait beyond 33 minutes is logged as 33 minutes (no run lasts that long)
+	}
+	p.tr.Emit("Pace", KV{"t": elapsed.Microseconds(), "elapsed": elapsed.Microseconds(), "hits": hits, "wait": logged, "stop": stop})
 	return wait, stop
 }
 func (p *rtPacer) Rate(time.Duration) float64 { return 0 }
@@ -42,12 +48,12 @@ func TestDrv_AttackRT(t *testing.T) {
 	defer tr.Close()
 	ms := time.Millisecond
 	type rtCase struct {
-		name       string
-		waits      []time.Duration // scripted pacer; nil = constant pacer
-		freq       int
-		hits       int
-		maxw       uint64
-		slowFirst  time.Duration // latency of the first response
+		name      string
+		waits     []time.Duration // scripted pacer; nil = constant pacer
+		freq      int
+		hits      int
+		maxw      uint64
+		slowFirst time.Duration // latency of the first response
 	}
 	cases := []rtCase{
 		{"zero-then-positive", []time.Duration{0, 20 * ms, 0, 20 * ms, 0, 20 * ms}, 0, 6, 0, 0},
@@ -56,6 +62,9 @@ func TestDrv_AttackRT(t *testing.T) {
 		{"positive-only", []time.Duration{5 * ms, 10 * ms, 5 * ms}, 0, 3, 0, 0},
 		{"constant-pacer-catching-up", nil, 20, 8, 1, 180 * ms}, // falls behind during the slow first response: zero waits, then positive ones
 		{"constant-pacer-steady", nil, 100, 15, 0, 0},
+		// a burst, then "idle for ever": the largest wait there is, asked for when some time has already elapsed
+		{"burst-then-idle-forever", []time.Duration{0, 0, 2 * ms, math.MaxInt64, math.MaxInt64, math.MaxInt64, math.MaxInt64}, 0, 1 << 30, 0, 0},
+		{"burst-then-idle-almost-forever", []time.Duration{0, 3 * ms, math.MaxInt64 - time.Duration(ms), math.MaxInt64 - 1, math.MaxInt64 - 1}, 0, 1 << 30, 0, 0},
 	}
 	rounds := 2
 	if thorough() {
@@ -79,8 +88,9 @@ func TestDrv_AttackRT(t *testing.T) {
 			}
 			atk := vegeta.NewAttacker(opts...)
 			cp := vegeta.ConstantPacer{Freq: c.freq, Per: time.Second}
+			var abandoned atomic.Bool
 			pacer := &rtPacer{tr: tr, inner: func(call int, elapsed time.Duration, hits uint64) (time.Duration, bool) {
-				if int(hits) >= c.hits {
+				if int(hits) >= c.hits || abandoned.Load() {
 					return 0, true
 				}
 				if c.waits != nil {
@@ -98,6 +108,17 @@ func TestDrv_AttackRT(t *testing.T) {
 				tgt.Method, tgt.URL = "GET", "http://verif.invalid/"
 				return nil
 			})
+			if c.hits == 1<<30 {
+				// this attack sleeps for ever after its burst: it is watched for a while and then left behind (the process ends)
+				go func() {
+					for range atk.Attack(targeter, pacer, 0, "rt") {
+					}
+				}()
+				time.Sleep(40 * ms)
+				abandoned.Store(true)             // should the loop ever consult the pacer again, it is told to stop
+				tr.Locked(func() { k = 1 << 20 }) // a later call of the abandoned attack would be logged with an impossible number
+				continue
+			}
 			for range atk.Attack(targeter, pacer, 0, "rt") {
 			}
 		}
